@@ -567,7 +567,7 @@ Polygon Polygon::simplify(void) const
                 //
                 //
                 //
-                size_t deletedPointValue = (j - 1) - 1;
+                size_t deletedPointValue = 2 * (j - 1);
                 for (size_t i = 0; i < checkpoints.size(); ++i)
                 {
                     if (checkpoints[i].first == deletedPointValue)
